@@ -19,7 +19,7 @@ var _ = digest.SpecHashSlot // spec functions used by the contracts below
 //@   nopanic
 //@   replay filter_RangeList
 //@   opaque SpecHashSlot
-//@   requires wf: rlWF(rl)
+//@   requires wf [C10]: rlWF(rl)
 //@   ensures union: result <==> rlIn(rl, digest.SpecHashSlot(key))
 //@   loop 1:
 //@     invariant idx: 0 - 1 <= rangeindex && rangeindex < len(rl.list)
@@ -33,7 +33,7 @@ var _ = digest.SpecHashSlot // spec functions used by the contracts below
 //@   arith int
 //@   properties C10
 //@   nopanic
-//@   requires wf: rlWF(rl)
+//@   requires wf [C10]: rlWF(rl)
 //@   modifies rl.list, rl.minLeft, rl.maxRight, elems(rl.list)
 //@   ensures len: left <= right ==> len(rl.list) == old(len(rl.list)) + 1
 //@   ensures nn: forall j int :: 0 <= j && j < len(rl.list) ==> rl.list[j] != nil
@@ -82,28 +82,28 @@ func SpecTrieWord(t *Trie, w string) bool   { panic("abstract spec function") }
 //@   properties C10
 //@   nopanic
 //@   opaque SpecHashSlot
-//@   requires wf: filterWF(f)
+//@   requires wf [C10]: filterWF(f)
 //@   ensures exact: result <==> slotRejected(f, key)
 
 //@ func RedisKeyFilter.FilterKey
 //@   arith int
 //@   properties C10
 //@   nopanic
-//@   requires nonnil: f != nil
+//@   requires nonnil [C10]: f != nil
 //@   ensures exact: result <==> keyRejected(f, key)
 
 //@ func RedisKeyFilter.FilterCmd
 //@   arith int
 //@   properties C10
 //@   nopanic
-//@   requires nonnil: f != nil
+//@   requires nonnil [C10]: f != nil
 //@   ensures exact: result <==> ((f.cmdBlackTrie != nil && SpecTrieWord(f.cmdBlackTrie, cmd)) || (f.cmdWhiteTrie != nil && !SpecTrieWord(f.cmdWhiteTrie, cmd)))
 
 //@ func RedisKeyFilter.FilterDb
 //@   arith int
 //@   properties C10
 //@   nopanic
-//@   requires nonnil: f != nil
+//@   requires nonnil [C10]: f != nil
 //@   ensures exact: result <==> (db != 0 - 1 && (exists j int :: 0 <= j && j < len(f.dbBlackList) && f.dbBlackList[j] == db))
 //@   loop 1:
 //@     invariant idx: 0 - 1 <= rangeindex && rangeindex < len(f.dbBlackList)
